@@ -109,7 +109,7 @@ def coq_op(op):
 
 
 def coq_start(st, extra=None):
-    if st[0] == "e":
+    if st[0] in ("e", "su"):
         return "(SFmt %s)" % coq_fs(extra["start"])
     if st[0] == "s":
         return "(SStr %s)" % coq_str(st[1])
@@ -145,6 +145,14 @@ def run(inp):
             x = canon.eval_expr(st[1])
             canon.observe(x, ["str", "len", "s", "width", "hash", "repr"])
             extra["start"] = canon.canon_fs(x)
+        elif st[0] == "su":
+            # a plain str of terminal output that fmtstr() cannot parse entirely (SGR parameters it does not know):
+            # the calls are made on the STR; they are judged as calls on what fmtstr(str) alone gives
+            x = st[1]
+            extra["start"] = canon.canon_fs(fmtstr(st[1]))
+            first = next((op[0] for op in inp[2] if op[0] != "obs"), None)
+            if first not in ("fmt", "func"):
+                x = fmtstr(st[1])                 # methods of FmtStr cannot be called on a str
         else:
             x = st[1] if st[0] == "s" else canon.build_fs(st[1]) if st[0] == "f" else 3
         try:
@@ -393,8 +401,13 @@ def outside_spec(rng):
     return args, kw, "style-positional-and-kw"
 
 
+UNPARSED = ["\x1b[22mab", "a\x1b[1;mb", "\x1b[90mx\x1b[39m", "p\x1b[24mq\x1b[29m", "\x1b[38;2;1;2;3mrgb", "k\x1b[2Aup", "\x9b97mz"]
+
+
 def rand_start(rng):
     r = rng.random()
+    if r < 0.05:
+        return ["su", rng.choice(UNPARSED)]
     if r < 0.3:
         return ["s", canon.rand_text(rng, 5)]
     if r < 0.5:
